@@ -1110,7 +1110,7 @@ def units():
              subset(RD_Assign(s), union(RD_Cond(s), RD_AssignBase(s))))])))
     # the identity clause (sets unchanged by map_expressions(identity)) rests on the map_expressions contracts
     from . import c16
-    us += c16.map_expressions_units()
+    us += c16.map_expressions_units(identity=True)
     return us
 
 
